@@ -370,9 +370,9 @@ func gen(c *harness.C) []harness.Case {
 	}
 	var cases []harness.Case
 	for _, k := range cells {
-		bound := 0
-		if c.Thorough() || k.Name == "shift3" || k.Name == "replicas4" && k.Mode == "loud" {
-			bound = 1
+		bound := 1
+		if c.Thorough() && (k.Name == "shift3" || k.Name == "replicas4") {
+			bound = 2
 		}
 		repeats := 1
 		if mapClass(k) == "replicas" {
